@@ -87,6 +87,10 @@ def run_case(case, choose=None, aux=None, max_steps=60000, enable_logging=False,
   rec = recs[0] if recs else None
   out['record'] = rec
   out['recs'] = recs
-  out['tokens'] = ec.canon_record(rec, ctx) if rec is not None else ['O:none']
+  try:
+    out['tokens'] = ec.canon_record(rec, ctx) if rec is not None else ['O:none']
+  except Exception as e:  # pylint: disable=broad-except
+    # a record that cannot be canonicalised (e.g. no outcome) is an observation, not a harness error
+    out['tokens'] = ['O:BROKEN-RECORD:%s' % type(e).__name__]
   out['crashes'] = [c for c in ec.CRASHES if c != 'ThreadTerminationError']
   return out
